@@ -13,11 +13,17 @@
    {op:"homologs", F:[CA points fixed], M:[CA points mobile], sF:[residue names], sM:[..],
     min_anchors, maxit, oc:"ok"|"Rejected", fa:[1-based positions in F], ma:[1-based positions in M],
     rmsd2q, sane}
+   {op:"far", fd, md, nfit, ue, qfit:[per transformation], qwit:[per transformation], oc, sane}
+    real-valued coordinates (any rotation angle, centres up to 2000 A from the origin, noise):
+    nfit = number of fitted atoms, qfit / qwit = RMSD of the fitted placement / of the WITNESS
+    placement (the generating motion's inverse, applied with the library's own apply()) over the
+    fitted atoms in units of 1/16 of the float32 spacing 2^(ue-23) at the largest coordinate.
    The events come from the seeded recorder (S3) and from the executions of the spec-generated
    "anch" cases of RigidFit.tla (S2).
    Judged: broadcasting outcome and number of transformations; RMSD^2 <= the lattice witness
    bound W (+ 3/10000); anchors well-formed, at least min(min_anchors, n) of them, all of them
-   when max_iterations = 1, the anchor path of the homolog variant (fallback / identity pairing
+   when max_iterations = 1, the witness law of RigidFitOps for "far" events (fitted RMSD <= witness
+   RMSD + (8 + nfit) ulps: no candidate placement is better than the returned one), the anchor path of the homolog variant (fallback / identity pairing
    by position, refusal of the fallback for unequal counts), and the reported fit no worse than
    W on exactly those anchors.  NOT judged: optimality below W. *)
 EXTENDS RigidFitOps, SequencesExt, Json, IOUtils
@@ -72,9 +78,18 @@ JudgeHomologs(t, k, e) ==
      ELSE IF okOc /\ wf /\ e.sane /\ Below(e.rmsd2q, W) THEN TRUE
      ELSE PrintT(<<"MISMATCH", t, k, "homologs", <<okOc, wf, e.sane>>, path, IF wf THEN {<<1, W>>} ELSE {}>>)
 
+JudgeFar(t, k, e) ==
+  LET bc == Broadcast(e.fd, e.md)
+      okOc == bc[1] = "ok" /\ e.oc = "ok"
+      okN == Len(e.qfit) = bc[2] /\ Len(e.qwit) = bc[2] /\ e.nfit >= 1
+      bad == IF okN THEN {j \in DOMAIN e.qfit : ~FarBelow(e.qfit[j], e.qwit[j], e.nfit)} ELSE {}
+  IN IF okOc /\ okN /\ e.sane /\ bad = {} THEN TRUE
+     ELSE PrintT(<<"MISMATCH", t, k, "far", <<okOc, okN, e.sane>>, bc[1], {<<j, <<e.qwit[j], UlpUnits * FarAllowUlps(e.nfit)>>>> : j \in bad}>>)
+
 Judge(t, k) ==
   LET e == Tr[t][k] IN
   CASE e.op = "fit" -> JudgeFit(t, k, e)
+    [] e.op = "far" -> JudgeFar(t, k, e)
     [] e.op = "outliers" -> JudgeOutliers(t, k, e)
     [] e.op = "homologs" -> JudgeHomologs(t, k, e)
     [] OTHER -> PrintT(<<"MISMATCH", t, k, "unknown op", <<>>, "", {}>>)
